@@ -8,6 +8,7 @@ import (
 	"go/types"
 	"os"
 	"strings"
+	"sync"
 
 	"golang.org/x/tools/go/packages"
 	"golang.org/x/tools/go/ssa"
@@ -25,15 +26,16 @@ type Program struct {
 	contracts     map[string]*Contract // by fullKey
 	funcs         map[string]*ssa.Function
 	files         map[string][]byte
-	curRefs       []Term
 	usedContracts map[string]bool
 	libCalls      map[string]bool
 	ufDecls       map[string]string
 	specLib       string
 	specLibNames  map[string]bool
 	ground        *GroundData
-	curEntry      *unitEntry
+	mu            sync.Mutex
 	known         map[string][]KnownFinding // by obligation base key
+	groundErr     error
+	usedGround    map[string]bool
 	inlined       map[string]bool
 }
 
@@ -61,7 +63,7 @@ func loadProgram(root string) (*Program, error) {
 	prog.Build()
 	p := &Program{root: root, pkgs: pkgs, ssa: prog, spkgs: map[string]*ssa.Package{}, tpkgs: map[string]*types.Package{},
 		contracts: map[string]*Contract{}, funcs: map[string]*ssa.Function{}, files: map[string][]byte{},
-		inlined: map[string]bool{}, known: map[string][]KnownFinding{}, usedContracts: map[string]bool{}, libCalls: map[string]bool{}, ufDecls: map[string]string{}, specLibNames: map[string]bool{}}
+		inlined: map[string]bool{}, usedGround: map[string]bool{}, known: map[string][]KnownFinding{}, usedContracts: map[string]bool{}, libCalls: map[string]bool{}, ufDecls: map[string]string{}, specLibNames: map[string]bool{}}
 	if len(pkgs) > 0 {
 		p.fset = pkgs[0].Fset
 	}
@@ -169,6 +171,8 @@ func (p *Program) declareUF(c *Ctx, name string, argSorts []string, res *Sort) {
 		return
 	}
 	decl := fmt.Sprintf("(declare-fun %s (%s) %s)", name, strings.Join(argSorts, " "), res)
+	p.mu.Lock()
+	defer p.mu.Unlock()
 	if old, ok := p.ufDecls[name]; ok {
 		if old != decl {
 			panic(unsupported{fmt.Sprintf("uninterpreted function %s used with two signatures: %s / %s", name, old, decl)})
